@@ -1,7 +1,8 @@
 import EosModel.Num
 import EosModel.Keyed
 /-! Line protocol (one `KeyedStorage` per run): `new` | `as k v,v,..` | `rs k v,v,..` | `ae k v` | `re k v` | `dk k`;
-    projection register pair: `pnew` | `pa p t,t` | `pu p t,t` -> `<dump projector_tgts> | <dump tgt_projectors>`
+    projection register pair: `pnew` | `pa p t,t` | `pu p t,t` -> `<dump projector_tgts> | <dump tgt_projectors>`;
+    ship-domain spec parking: `anew` | `sa x` | `su x` | `rsh s` | `ush` -> `<dump awaiting> | <dump active>`
     (`-` = empty data) -> canonical dump `k:v,v;k:v` (keys and members ascending, `-` for an empty bucket,
     `empty` for the empty dict); anything else -> `bad-op`. -/
 open Eos Eos.Keyed
@@ -20,26 +21,32 @@ def dump (s : Store) : String :=
 def parseData? (t : String) : Option (List Nat) :=
   if t = "-" then some [] else (t.splitOn ",").mapM String.toNat?
 
-def stepKeyed (st : Store × ProjReg) (line : String) : (Store × ProjReg) × List String :=
-  let (s, r) := st
-  let res : Option ((Store × ProjReg) × String) :=
+def stepKeyed (st : Store × ProjReg × AffReg) (line : String) : (Store × ProjReg × AffReg) × List String :=
+  let (s, r, a) := st
+  let da (a : AffReg) : String := dump a.awaiting ++ " | " ++ dump a.active
+  let res : Option ((Store × ProjReg × AffReg) × String) :=
     match line.splitOn " " with
-    | ["new"] => some (([], r), dump [])
-    | ["as", k, d] => do let k ← k.toNat?; let d ← parseData? d; let s' := addSet s k d; pure ((s', r), dump s')
-    | ["rs", k, d] => do let k ← k.toNat?; let d ← parseData? d; let s' := rmSet s k d; pure ((s', r), dump s')
-    | ["ae", k, v] => do let k ← k.toNat?; let v ← v.toNat?; let s' := addEntry s k v; pure ((s', r), dump s')
-    | ["re", k, v] => do let k ← k.toNat?; let v ← v.toNat?; let s' := rmEntry s k v; pure ((s', r), dump s')
-    | ["dk", k] => do let k ← k.toNat?; let s' := delKey s k; pure ((s', r), dump s')
-    | ["pnew"] => some ((s, {}), "empty | empty")
+    | ["new"] => some (([], r, a), dump [])
+    | ["as", k, d] => do let k ← k.toNat?; let d ← parseData? d; let s' := addSet s k d; pure ((s', r, a), dump s')
+    | ["rs", k, d] => do let k ← k.toNat?; let d ← parseData? d; let s' := rmSet s k d; pure ((s', r, a), dump s')
+    | ["ae", k, v] => do let k ← k.toNat?; let v ← v.toNat?; let s' := addEntry s k v; pure ((s', r, a), dump s')
+    | ["re", k, v] => do let k ← k.toNat?; let v ← v.toNat?; let s' := rmEntry s k v; pure ((s', r, a), dump s')
+    | ["dk", k] => do let k ← k.toNat?; let s' := delKey s k; pure ((s', r, a), dump s')
+    | ["pnew"] => some ((s, {}, a), "empty | empty")
     | ["pa", p, d] => do
         let p ← p.toNat?; let d ← parseData? d; let r' := r.apply p d
-        pure ((s, r'), dump r'.projTgts ++ " | " ++ dump r'.tgtProjs)
+        pure ((s, r', a), dump r'.projTgts ++ " | " ++ dump r'.tgtProjs)
     | ["pu", p, d] => do
         let p ← p.toNat?; let d ← parseData? d; let r' := r.unapply p d
-        pure ((s, r'), dump r'.projTgts ++ " | " ++ dump r'.tgtProjs)
+        pure ((s, r', a), dump r'.projTgts ++ " | " ++ dump r'.tgtProjs)
+    | ["anew"] => some ((s, r, {}), "empty | empty")
+    | ["sa", x] => do let x ← x.toNat?; let a' := a.step (.regSpec x); pure ((s, r, a'), da a')
+    | ["su", x] => do let x ← x.toNat?; let a' := a.step (.unregSpec x); pure ((s, r, a'), da a')
+    | ["rsh", x] => do let x ← x.toNat?; let a' := a.step (.regShip x); pure ((s, r, a'), da a')
+    | ["ush"] => let a' := a.step .unregShip; some ((s, r, a'), da a')
     | _ => none
   match res with
   | some (st', o) => (st', [o])
   | none => (st, ["bad-op"])
 
-def main : IO Unit := do lineLoop (← IO.getStdin) (([], {}) : Store × ProjReg) stepKeyed
+def main : IO Unit := do lineLoop (← IO.getStdin) (([], {}, {}) : Store × ProjReg × AffReg) stepKeyed
